@@ -59,7 +59,7 @@ impl Scenario for C31 {
         ]
     }
     fn required_probes(&self, _tier: Tier) -> Vec<&'static str> {
-        vec!["append_at_existing_index", "snapshot_below_tail", "log_emptied_by_snapshot", "append_leaves_hole", "replace_after_hole"]
+        vec!["append_at_existing_index", "snapshot_below_tail", "log_emptied_by_snapshot", "append_leaves_hole", "replace_after_hole", "append_at_or_below_snapshot_into_empty_log"]
     }
     fn extra_evidence(&self, _tier: Tier) -> serde_json::Map<String, serde_json::Value> {
         let mut m = serde_json::Map::new();
@@ -77,7 +77,7 @@ impl Scenario for C31 {
                     // property quantifies over all operation sequences, and a hole is what
                     // makes "position of an index" differ from "index minus first index")
                     let gap = if r.chance(1, 5) { 1 + r.below(2) } else { 0 };
-                    case.events.push(json!({"op":"append","at":r.below(8),"len":1 + r.below(3),"term":r.below(3),"gap":gap}))
+                    case.events.push(json!({"op":"append","at":r.below(8),"len":1 + r.below(3),"term":r.below(3),"gap":gap,"below_snap":r.chance(1, 5)}))
                 }
                 1 => case.events.push(json!({"op":"truncate","at":r.below(8)})),
                 _ => case.events.push(json!({"op":"snapshot","at":r.below(8)})),
@@ -112,7 +112,18 @@ impl Scenario for C31 {
                     let tail = last_i.max(snap_i) + 1;
                     cands.push(tail);
                     let gap = u(ev, "gap");
-                    let first = if gap > 0 { tail + gap } else { cands[(u(ev, "at") as usize) % cands.len()] };
+                    // with an EMPTY log (everything compacted into the snapshot) an append may
+                    // also land at or below the snapshot index: the log then holds exactly that
+                    // batch, and it — not the snapshot — is the newest retained entry
+                    let below = ev["below_snap"].as_bool().unwrap_or(false) && m.entries.is_empty() && snap_i >= 1;
+                    let first = if below {
+                        o.probe("append_at_or_below_snapshot_into_empty_log");
+                        1 + u(ev, "at") % snap_i
+                    } else if gap > 0 {
+                        tail + gap
+                    } else {
+                        cands[(u(ev, "at") as usize) % cands.len()]
+                    };
                     if first > 9 {
                         continue;
                     }
